@@ -1,6 +1,8 @@
 import Gtree.Model.MkOps
 import Gtree.Lemmas.MkTree
 import Gtree.Lemmas.FSChanges
+import Gtree.Lemmas.MkOrder
+import Gtree.Lemmas.MkdirVerify
 /-
   The massive mode's mkdirer at the granularity of single file-system operations: the operations of the
   roots' recursions (`mkTree`) interleaved in ANY way leave the same file system as the simple mode.
@@ -621,5 +623,102 @@ theorem interleave_same (exts : List Bytes) (ts : List Bytes) (roots : List T) (
   rw [hseq, hchar p, hchar0 p]
   simp only [List.nil_append]
   exact stateAfter_congr fs _ _ hmem p
+
+
+/-! ### The per-root "exists already?" check, at any moment of any schedule -/
+
+theorem allGoodT_of_mem : ∀ (ks : List T), AllGoodL ks → ∀ t ∈ ks, AllGoodT t
+  | [], _, t, ht => by simp at ht
+  | x :: rest, hgl, t, ht => by
+    rw [AllGoodL] at hgl
+    rcases List.mem_cons.mp ht with rfl | ht
+    · exact hgl.1
+    · exact allGoodT_of_mem rest hgl.2 t ht
+
+/-- **At any moment of any schedule, the exists-check of a root none of whose operations has run yet passes.**
+    `done` is whatever has been executed so far: operations of the plan, each `Create` after its parent's
+    `MkdirAll`, none of them an operation of root `t`. -/
+theorem exists_check_passes (f : Fmt) (exts : List Bytes) (ts : List Bytes) (roots : List T) (fs : FS)
+    (hts : GoodList ts) (hg : AllGoodL roots) (hd : DistinctL roots)
+    (hnf : ∀ i < ts.length, notFile fs (key (ts.take (i + 1))))
+    (habs : ∀ e ∈ pathsOf exts ts roots, fs.lookup (key e.1) = none)
+    (done : List EOp) (hmem : ∀ op ∈ done, op ∈ opsKids exts ts roots) (hord : Ordered done)
+    (t : T) (ht : t ∈ roots) (hnot : ∀ op ∈ done, op ∉ opsTree exts ts t) :
+    ∃ s, runE fs done = (s, none) ∧ anyRootExists s (key ts) [growRoot f t] = false := by
+  have hplan := planOK exts ts roots fs hts hg hd hnf habs
+  have hinit : ∀ p, fs.lookup p = stateAfter fs [] p := by intro p; simp [stateAfter, crKeys, mkPrefixes]
+  obtain ⟨s, hrun, hchar⟩ := run_char fs _ hplan done [] fs hinit (by simpa using hmem) (by simpa using hord)
+  simp only [List.nil_append] at hchar
+  refine ⟨s, hrun, ?_⟩
+  have hgt : AllGoodT t := allGoodT_of_mem roots hg t ht
+  have hrn : GoodElem t.name := by cases t with | mk n sub => rw [AllGoodT] at hgt; exact hgt.1
+  have hgood : GoodList (ts ++ [t.name]) := goodList_snoc hts hrn
+  -- an executed operation belongs to another root, whose paths go through another name
+  have other : ∀ op ∈ done, ∃ t' ∈ roots, t'.name ≠ t.name ∧ op ∈ opsKids exts ts [t'] ∧ AllGoodL [t'] := by
+    intro op hop
+    obtain ⟨t', ht', hin⟩ := (mem_opsKids exts ts roots op).mp (hmem op hop)
+    refine ⟨t', ht', ?_, by simp [opsKids, hin], by simp [AllGoodL, allGoodT_of_mem roots hg t' ht']⟩
+    intro hn
+    have := distinct_name_eq roots hd t' ht' t ht hn
+    subst this
+    exact hnot op hop hin
+  have ne_key : ∀ (x : List Bytes) (t' : T), t'.name ≠ t.name → GoodList x → (∃ k ∈ [t'], ∃ tail, x = ts ++ k.name :: tail) →
+      key (ts ++ [t.name]) ≠ key x := by
+    intro x t' hn hgx ⟨k, hk, tail, hx⟩
+    simp only [List.mem_singleton] at hk
+    subst hk
+    exact key_ne_sibling (Q := ts) hgood hgx (x := t.name) (ta := []) rfl hx (fun e => hn e.symm)
+  -- the root is absent in the current state
+  have habs' : s.lookup (key (ts ++ [t.name])) = none := by
+    rw [hchar]
+    unfold stateAfter
+    have hc : key (ts ++ [t.name]) ∉ crKeys done := by
+      intro h
+      obtain ⟨c, hc, hk⟩ := (mem_crKeys _ _).mp h
+      obtain ⟨t', _, hn, hin, hgl⟩ := other _ hc
+      obtain ⟨hgc, hcin⟩ := (ops_shape exts [t'] ts hts hgl _ hin).2 c rfl
+      obtain ⟨_, k, hk', tail, hshape⟩ := pathsOf_shape exts [t'] ts hts hgl _ hcin
+      exact ne_key c t' hn hgc ⟨k, hk', tail, hshape⟩ hk
+    have hm : key (ts ++ [t.name]) ∉ mkPrefixes done := by
+      intro h
+      obtain ⟨q, hq, i, hi, hk⟩ := (mem_mkPrefixes _ _).mp h
+      obtain ⟨t', _, hn, hin, hgl⟩ := other _ hq
+      obtain ⟨hgq, hpre⟩ := (ops_shape exts [t'] ts hts hgl _ hin).1 q rfl
+      rcases hpre i hi with ⟨hi', htk⟩ | hpin
+      · rw [htk] at hk
+        exact key_ne_prefix hts hgood (x := t.name) (tail := []) rfl i hk
+      · obtain ⟨hgx, k, hk', tail, hshape⟩ := pathsOf_shape exts [t'] ts hts hgl _ hpin
+        exact ne_key _ t' hn hgx ⟨k, hk', tail, hshape⟩ hk
+    have hfs : fs.lookup (key (ts ++ [t.name])) = none := by
+      cases t with
+      | mk n sub =>
+        apply habs (ts ++ [n], isFileNode exts n (!sub.isEmpty))
+        rw [pathsOf_mem_split]
+        exact ⟨T.mk n sub, ht, by simp [pathsOf]⟩
+    simp [hc, hm, hfs]
+  -- the prefixes of the target are not files in the current state
+  have hnf' : ∀ i < ts.length, notFile s (key (ts.take (i + 1))) := by
+    intro i hi n hn
+    rw [hchar] at hn
+    unfold stateAfter at hn
+    have hc : key (ts.take (i + 1)) ∉ crKeys done := by
+      intro h
+      obtain ⟨c, hc, hk⟩ := (mem_crKeys _ _).mp h
+      obtain ⟨hgc, hcin⟩ := (ops_shape exts roots ts hts hg _ (hmem _ hc)).2 c rfl
+      obtain ⟨_, k, _, tail, hshape⟩ := pathsOf_shape exts roots ts hts hg _ hcin
+      exact key_ne_prefix hts hgc hshape i hk.symm
+    simp only [hc, if_false] at hn
+    split at hn
+    · simp at hn
+    · exact hnf i hi n hn
+  have hstat := stat_notExist s ts t.name hgood hts hnf' habs'
+  have hfull : filepathJoin [key ts, t.name] = key (ts ++ [t.name]) := by
+    have := filepathJoin_key ts [t.name] hts.1 (by simp) (goodList_elems hts) (by simpa using hrn.1)
+    simpa [joinSlash] using this
+  cases t with
+  | mk n sub =>
+    simp only [anyRootExists, growRoot, List.any_cons, List.any_nil, Bool.or_false, List.head?_cons, rootExists]
+    simp only [T.name] at hfull hstat
+    rw [hfull, hstat]
 
 end Gtree
